@@ -20,7 +20,7 @@ RULE = ('corpus: every clause shape with 0..3 variables that occur only inside h
         'one call site (thorough: at every pair of call sites), all other sites keeping insertion order - the output must '
         'be byte-identical to the default-order output; (b) the whole corpus is compiled in fresh processes under '
         'PYTHONHASHSEED 0..5 (thorough 0..15) and the per-program digests must agree; (c) in one process every ordered pair '
-        'of corpus programs (from a subset) is compiled before the target and the target\'s output compared with its output '
+        'of corpus programs (from a subset, incl. the same text under other options: debug_filename with different file names) is compiled before the target and the target\'s output compared with its output '
         'in a fresh state. states = distinct (program, output digest) pairs; transitions = compiler invocations; non-trivial '
         '= the program has >= 2 fresh variables or a choice point was explored')
 ASSUMPTIONS = ['nondeterminism that does not flow through a call of set()/frozenset() by name (set displays, id() ordering, '
@@ -70,9 +70,18 @@ def digest(s):
     return hashlib.sha256(s.encode('utf8', 'surrogatepass')).hexdigest()[:20]
 
 
-def compile_or_exc(text):
+def compile_or_exc(text, opts=None):
+    """opts: None (all debug options off) or a source-file name: debug_filename on with that name
+    (the output then starts with a comment naming the file - part of the options, so part of the
+    function's argument)"""
     try:
-        return impl.compile_text(text)
+        if opts is None:
+            return impl.compile_text(text)
+
+        class Ctx(impl.Ctx):
+            debug_filename = True
+            current_source_file = opts
+        return impl.compiler.compile_prolog_from_string(text, Ctx)
     except Exception as e:  # noqa: BLE001
         return 'EXC:%s:%s' % (type(e).__name__, e)
 
@@ -278,23 +287,29 @@ def run_shard(spec):
             sub = sub[:8]
         sub = sub + [c for c in cp if c[0].startswith('fail-')]
         idx = 0
-        for tname, ttext in sub:
+        # the same text under other options belongs to the histories too (a result must not be
+        # remembered under an incomplete key)
+        OPTS = [None, 'a.pl', 'b.pl']
+        subo = [(nm, tx, None) for nm, tx in sub]
+        for nm, tx in sub[:3]:
+            subo += [(nm + '@a.pl', tx, 'a.pl'), (nm + '@b.pl', tx, 'b.pl')]
+        for tname, ttext, topts in subo:
             base = None
-            for (n1, t1), (n2, t2) in itertools.product(sub, repeat=2):
+            for (n1, t1, o1), (n2, t2, o2) in itertools.product(subo, repeat=2):
                 idx += 1
                 if idx % n != k:
                     continue
                 if base is None:
-                    base = run_fresh(ttext)
-                compile_or_exc(t1)
-                compile_or_exc(t2)
-                out = compile_or_exc(ttext)
+                    base = run_fresh(ttext, topts)
+                compile_or_exc(t1, o1)
+                compile_or_exc(t2, o2)
+                out = compile_or_exc(ttext, topts)
                 acc.n['evaluations'] += 1
                 acc.n['validated'] += 1
                 acc.n['transitions'] += 3
                 acc.n['nontrivial'] += 1
                 if out != base:
-                    acc.violation('output-depends-on-earlier-compilations', (2, idx), {'target': ttext, 'before': [t1, t2]},
+                    acc.violation('output-depends-on-earlier-compilations', (2, idx), {'target': ttext, 'target_opts': topts, 'before': [t1, t2], 'before_opts': [o1, o2]},
                                   'program\n%s\ncompiles differently after compiling\n%s\nand\n%s\nin the same process:\n%s' % (ttext, t1, t2, first_diff(base, out)),
                                   key='%s|%s|%s' % (tname, n1, n2))
                 else:
@@ -305,15 +320,15 @@ def run_shard(spec):
 _fresh_cache = {}
 
 
-def run_fresh(text):
+def run_fresh(text, opts=None):
     """output of compiling `text` as the first compilation of a fresh process"""
-    d = _fresh_cache.get(text)
+    d = _fresh_cache.get((text, opts))
     if d is None:
-        code = 'import sys; sys.path.insert(0, %r); from mc import impl; sys.stdout.write(__import__("mc.checks.c18").checks.c18.compile_or_exc(sys.stdin.read()))' % VERIF
+        code = 'import sys; sys.path.insert(0, %r); from mc import impl; sys.stdout.write(__import__("mc.checks.c18").checks.c18.compile_or_exc(sys.stdin.read(), %r))' % (VERIF, opts)
         p = subprocess.run([sys.executable, '-c', code], input=text, capture_output=True, text=True, timeout=600)
         if p.returncode != 0:
             raise RuntimeError(p.stderr[-1500:])
-        d = _fresh_cache[text] = p.stdout
+        d = _fresh_cache[(text, opts)] = p.stdout
     return d
 
 
@@ -334,10 +349,10 @@ def replay(case):
             return [('output-depends-on-process-or-hash-seed', '%d different outputs under 8 hash seeds for\n%s' % (len(outs), case['text']))]
         return []
     else:
-        base = run_fresh(case['target'])
-        for t in case['before']:
-            compile_or_exc(t)
-        out = compile_or_exc(case['target'])
+        base = run_fresh(case['target'], case.get('target_opts'))
+        for t, o in zip(case['before'], case.get('before_opts', [None, None])):
+            compile_or_exc(t, o)
+        out = compile_or_exc(case['target'], case.get('target_opts'))
         if out != base:
             return [('output-depends-on-earlier-compilations', first_diff(base, out))]
         return []
